@@ -63,6 +63,7 @@ type c11Server struct {
 	aborted    int
 	done       chan struct{}
 	respDone   bool
+	port       uint32
 	errEmitted []byte
 	clientSeen func() int
 }
@@ -127,8 +128,15 @@ func (s *c11Server) respond() {
 	if s.exited {
 		return
 	}
-	resp := &conformancev1.ServerCompatResponse{Host: "127.0.0.1", Port: 4242}
-	if s.sc.TLS {
+	port := s.port
+	if port == 0 {
+		port = 4242
+	}
+	resp := &conformancev1.ServerCompatResponse{Host: "127.0.0.1", Port: port}
+	if s.sc.TLS || (s.gotRequest != nil && s.gotRequest.UseTls) {
+		resp.PemCert = []byte(fmt.Sprintf("-----BEGIN CERTIFICATE-----\nfake%d\n-----END CERTIFICATE-----\n", port))
+	}
+	if false {
 		resp.PemCert = []byte("-----BEGIN CERTIFICATE-----\nfake\n-----END CERTIFICATE-----\n")
 	}
 	emit := func(b []byte) {
@@ -384,7 +392,7 @@ func (c *c11Client) sendRequest(req *conformancev1.ClientCompatRequest, whenDone
 	return nil
 }
 
-func (c *c11Client) closeSend()               {}
+func (c *c11Client) closeSend()              {}
 func (c *c11Client) waitForResponses() error { return nil }
 func (c *c11Client) isRunning() bool         { return true }
 func (c *c11Client) stop()                   {}
